@@ -183,8 +183,12 @@ Section Api2.
       destruct (save_direct s1 o) as [s2 r]. cbn [fst] in *. eapply Step_trans; eassumption.
     - apply Step_refl. exact HG.
     - unfold data_of. rewrite Ho. destruct (r_data (o_rec ob)) as [d|]; [|apply Step_refl; exact HG].
-      cbn [fst]. destruct (kv_get d k); [|apply Step_refl; exact HG].
-      apply hupd_Step; [exact HG | intros k' r'; apply (cl_data _ _ _ _ _ C)].
+      destruct (kv_get d k); [|apply Step_refl; exact HG].
+      destruct (inv_hupd_hok _ _ _ _ o (fun r => set_data r (Some (kv_del d k))) I H) as [I1 H1]; [reflexivity|].
+      assert (S1 : Step s (hupd s o (fun r => set_data r (Some (kv_del d k)))))
+        by (apply hupd_Step; [exact HG | intros k' r'; apply (cl_data _ _ _ _ _ C)]).
+      pose proof (save_direct_Step _ _ _ _ _ I1 (Step_G _ _ S1) (Step_CL _ _ S1 C) (Step_HP _ _ _ _ S1 HP0)) as S2.
+      destruct (save_direct _ o) as [s2 r]. cbn [fst] in *. eapply Step_trans; eassumption.
     - pose proof (login_Step _ _ _ _ _ u ex I H HG C HP) as S1.
       destruct (login s o u ex) as [[s1 r] cks]. exact S1.
     - pose proof (logout_Step _ _ _ _ _ I H HG C HP0) as S1. destruct (logout s o) as [s1 r]. exact S1.
